@@ -257,9 +257,10 @@ class Quantity:
             else:
                 # does not exist: register new
                 baseunits[dim1] = [unitid1,exp1] 
-        # construct new base units
+        # construct new base units first: if that fails the quantity must stay as it was
+        baseunits = BaseUnits({unitid:exp for unitid,exp in baseunits.values()})
         self.magnitude *= factor
-        self.baseunits = BaseUnits({unitid:exp for unitid,exp in baseunits.values()})
+        self.baseunits = baseunits
         return self
 
 def implements(np_function):
